@@ -24,10 +24,11 @@ BRANCHES = [
     "destruct.no-inventory", "destruct.inventory-hooks", "destruct.hook-enabled-the-dying-object",
     "destruct.hook-disabled-the-dying-object", "take",
     "clone.blueprint-heart-beat-switched-off", "clone.blueprint-has-no-heart-beat", "timer-fired", "heart_beats()",
-    "replace_program", "replace_programs:program-swapped", "error.after-self-destruct", "error.caught-by-catch", "reload_object", "enable_commands", "eval_cost-used", "timer_flags-set",
+    "move_object", "replace_program", "replace_programs:program-swapped", "error.after-self-destruct", "error.caught-by-catch", "reload_object", "enable_commands", "eval_cost-used", "timer_flags-set",
     "chb.call.living:command_giver=ob", "chb.call.not-living:command_giver=0", "chb.call.eval_cost-was-full",
     "chb.call.eval_cost-reset-after-use", "chb.timer_flags-without-HEARTBEAT:empty",
-    "chb.timer_flags-without-HEARTBEAT:list-kept",
+    "chb.timer_flags-without-HEARTBEAT:list-kept", "backend.start-up-call", "backend.further-passes-after-error",
+    "backend.tick-served-right-after-an-abandoned-round", "backend.pass-limit",
 ]
 
 
@@ -70,11 +71,18 @@ class C11(Prop):
         "NV.C11.sim_round",
         "NV.C11.sim_reload",
         "NV.C11.sim_tick",
+        "NV.C11.sim_tickCore",
+        "NV.C11.sim_applyRp",
+        "NV.C11.sim_morePasses",
+        "NV.C11.sim_hookStep",
+        "NV.C11.roundRef_cg",
+        "NV.C11.tick_cg_none",
         "NV.C11.searchLoop_eq",
         "NV.C11.searchBack_eq_idxOf",
         "NV.C11.searchBack_none_iff",
         "NV.C11.hbs_nodup",
         "NV.C11.search_direction_unobservable",
+        "NV.C11.gen_efunWrappers_eq",
         "NV.C11.gen_backendOrder_eq",
         "NV.C11.gen_timerSetsFlag_eq",
         "NV.C11.gen_shbGuard_eq",
@@ -100,6 +108,8 @@ class C11(Prop):
         "NV.C11.callAfter_ref",
         "NV.C11.finish_ref",
         "NV.C11.tick_eq_ref",
+        "NV.C11.interval_stored_any",
+        "NV.C11.retune_keeps_position",
         "NV.C11.runRound_eq",
         "NV.C11.quiet_body",
         "NV.C11.quiet_round",
@@ -110,6 +120,9 @@ class C11(Prop):
         "NV.C11.accepted_quiet_when_off",
         "NV.C11.judge_ok_implies_quiet_when_off",
         "NV.C11.no_beat_while_heart_beats_off",
+        "NV.C11.accepted_cg_clean",
+        "NV.C11.judge_ok_implies_cg_clean",
+        "NV.C11.no_command_giver_left_behind",
         "NV.C11.accepted_ctx_clean",
         "NV.C11.judge_ok_implies_ctx_clean",
         "NV.C11.context_clean_every_beat",
@@ -138,33 +151,38 @@ class C11(Prop):
                  "decisive statements of set_heart_beat / f_set_heart_beat / call_heart_beat / query_heart_beat / error_handler / "
                  "destruct_object / reload_object / clone_object into Lean definitions the model uses, bridging lemmas as "
                  "obligations) + model/implementation correspondence")
-    level_text = ("Lean 4 theorems about an executable model of call_heart_beat / set_heart_beat / query_heart_beat / "
-                  "error_handler (catch branch and switch-off) / destruct_object (inventory hooks incl. errors in them) / "
-                  "clone_object / reload_object / replace_program for all populations, heart_beat scripts, timer_flags and tick "
-                  "counts; the model is tied to the source by definitions regenerated from the clang AST on every run (round "
-                  "frame with the timer_flags guard, index compensation, search loop, memmove, tick test/reset, statements around "
-                  "the call, clamp, retune, growth, argument saturation, loop exit, while condition, error_handler block and "
-                  "order, destruct / reload / clone order - the model uses them, bridging lemmas are obligations), regenerated "
-                  "constants, and by running the real code (hook verif_tick) and the model on the same generated histories; the "
-                  "Lean specification oracle (incl. the clause 'every heart_beat starts with a clean command_giver / eval cost') "
-                  "judges every implementation trace")
+    level_text = ("Lean 4 theorems about an executable model of one pass of the backend() loop (start-up call, "
+                  "remove_destructed_objects / replace_programs, call_heart_beat, further passes after an error), set_heart_beat / "
+                  "query_heart_beat / error_handler (restrict_destruct reset, catch branch, switch-off) / destruct_object "
+                  "(inventory hooks incl. errors, self-destructing and departing items, restrict_destruct) / clone_object / "
+                  "reload_object / replace_program for all populations, heart_beat scripts, timer_flags and tick counts; the "
+                  "model is tied to the source by definitions regenerated from the clang AST on every run (round frame with the "
+                  "timer_flags guard, index compensation, search loop, memmove, tick test/reset, statements around the call, "
+                  "clamp, retune, growth, argument saturation, loop exit, while condition, error_handler block and order, "
+                  "destruct / reload / clone / backend-loop order; constants appear symbolically - the model uses them, bridging "
+                  "lemmas are obligations) and by running the REAL backend() loop (cycle hook; poll point and "
+                  "remove_destructed_objects wrapped at link level) and the model on the same generated histories; the Lean "
+                  "specification oracle (incl. 'every heart_beat starts with a clean command_giver / eval cost' and 'no "
+                  "command_giver is left behind after a pass') judges every implementation trace")
     level_note = ("trusted: Lean kernel; extract.py + props/c11_extract.py (symbolic execution of the listed statements, grammar "
                   "in its header); the correspondence harness (differential, only the generated histories); "
-                  "heart_beat bodies are oracle scripts; the timer thread is an explicit 'flag' operation; the top of the "
-                  "backend loop (remove_destructed_objects / replace_programs, eval_cost reset) is reproduced by the harness; "
-                  "command_giver after a round / after restore_context is modelled but not observed")
-    rule = ("cases = corpus + boundary list + seeded random histories: populations of 1..6 clones of two blueprints "
-            "(with / without heart_beat function), some living, some carrying others; per-beat and one-shot heart_beat scripts "
-            "of set_heart_beat(self/other, 0/1/n/out-of-range), query, destruct(self/other, + error afterwards), clone(+enable), "
-            "reload_object(self/other), replace_program, error, caught error, enable_commands, eval-cost use, timer-fired and "
-            "heart_beats(); move_or_destruct hooks incl. failing ones; the same operations between ticks; timer_flags changes; "
-            "3..25 ticks; a case is non-trivial when its trace has a beat; distinct = distinct canonical implementation trace")
+                  "heart_beat bodies are oracle scripts; the timer thread is an explicit 'flag' operation (the timer tick itself "
+                  "is delivered at the poll point the way heartbeat_timer_callback does); backend() is entered anew for every "
+                  "tick of a case (its start-up call_heart_beat runs with timer_flags = 0 and is part of the model); at most "
+                  "maxPass = 5 further rounds are served inside one tick command (harness rule, mirrored)")
+    rule = ("cases = corpus + boundary list + seeded random histories: populations of 1..6 (sometimes 35..42, boundary: > 128) "
+            "clones of two blueprints (with / without heart_beat function), some living, some carrying others; per-beat and "
+            "one-shot heart_beat scripts of set_heart_beat(self/other, 0/1/n/out-of-range), query, destruct(self/other, + error "
+            "afterwards), clone(+enable), reload_object(self/other), replace_program, move_object, error, caught error, "
+            "enable_commands, eval-cost use, timer-fired and heart_beats(); move_or_destruct hooks incl. failing, self-destructing, "
+            "departing and illegally destructing ones; the same operations between ticks; timer_flags changes; 3..25 ticks; a "
+            "case is non-trivial when its trace has a beat; distinct = distinct canonical implementation trace")
     not_covered = ["the direction of set_heart_beat's search loop is proved unobservable (entries unique per object) instead of being modelled",
                    "perc_hb_probes / num_hb_calls statistics, heart_beat_status()",
                    "truncation of a round by the real timer thread is an explicit scripted operation (the thread is C19)",
-                   "command_giver after a completed / aborted round (restore_context) is tied by a shape obligation only; current_interactive is not modelled",
+                   "current_interactive; user commands / I/O in the same pass of the backend loop (C09, C12)",
                    "timer_flags bits RESET / CALLOUT run look_for_objects_to_swap / call_out in the harness but nothing is pending there (C10 covers call_out)",
-                   "restrict_destruct refusals, inventory items that move away in move_or_destruct, nested inventories",
+                   "nested inventories (items carrying items); 'errR only inside a hook' is not an oracle clause (a left-over restrict_destruct is observed directly by the harness instead)",
                    "wrap of the short countdown of an object without heart_beat function (needs 32769 ticks, not observable: such an object is never called)",
                    "errors in the master's error handler (in_error re-entry)"]
 
@@ -176,7 +194,8 @@ class C11(Prop):
         return text
 
     def prepare(self, ctx):
-        self.exe = E.compile_harness("c11", [os.path.join(E.VERIF, "harness/c11/c11.c")])
+        self.exe = E.compile_harness("c11", [os.path.join(E.VERIF, "harness/c11/c11.c")],
+                                     extra=("-Wl,--wrap=do_comm_polling", "-Wl,--wrap=remove_destructed_objects"))
         self.conf = E.make_mudlib(ctx.rundir)
 
     def run_impl(self, ctx, cases):
@@ -231,8 +250,23 @@ class C11(Prop):
         mk("timer-fires-mid-round", pop3 + ["script o2 hb:1 flag", "script o4 hb:* q,o4", "tick", "tick", "tick"])
         mk("timer-fires-last", pop3 + ["script o4 hb:1 flag", "tick", "tick", "tick"])
         mk("timer-fires-between", pop3 + ["do o2 flag", "tick", "tick"])
-        mk("grow-array", ["do o0 clone,o%d,0,1" % i for i in range(2, 70)] + ["script o5 hb:0 clone,o80,0,1",
+        chunk = self.heart_beat_chunk()
+        mk("grow-array", ["do o0 clone,o%d,0,1" % i for i in range(2, 2 * chunk + 6)] + ["script o5 hb:0 clone,o%d,0,1" % (2 * chunk + 20),
                           "tick", "do o0 hbs", "tick"])
+        # --- many entries (index types wider than a char): removals / retunes at the far end of a long list, in a round
+        big = 4 * chunk + 7
+        mk("many-objects", ["do o0 clone,o%d,0,1" % i for i in range(2, big)] +
+           ["script o3 hb:0 shb,o%d,0;shb,o%d,3;dest,o%d;hbs" % (big - 1, big - 2, big - 3),
+            "script o%d hb:0 shb,o2,0;shb,o%d,0;hbs" % (big - 5, big - 4), "tick", "tick", "do o0 shb,o%d,0" % (big - 6),
+            "do o0 q,o%d" % (big - 2), "do o0 hbs", "tick"])
+        # --- retune of ANOTHER, already enabled object from inside a round (C11-5 lived here): every (from, to) pair of a
+        #     list of 4, same and different interval; the object must keep its place: visited in this round iff not yet served
+        for frm in range(4):
+            for to in range(4):
+                for iv in (1, 2):
+                    mk("retune-from%d-to%d-iv%d" % (frm, to, iv),
+                       ["do o0 clone,o%d,0,1" % (i + 2) for i in range(4)] +
+                       ["script o%d hb:1 shb,o%d,%d;hbs" % (frm + 2, to + 2, iv), "tick", "tick", "do o0 hbs", "tick", "tick"])
         # --- destruct_object is a SEQUENCE: inventory hooks run before the heart-beat removal and the O_DESTRUCTED store
         carrier = ["do o0 clone,o2,0,1", "do o0 clone,o3,0,0", "do o0 clone,o4,0,1", "do o2 take,o3", "do o0 clone,o5,0,1"]
         mk("hook-wakes-dying-carrier", carrier + ["script o3 md shb,o2,1;q,o2;hbs", "tick", "do o0 dest,o2", "do o0 hbs",
@@ -260,6 +294,20 @@ class C11(Prop):
                                                  "do o5 dest,o2", "do o0 hbs", "do o0 dest,o3", "do o5 dest,o2", "do o0 hbs", "tick"])
         mk("hook-error-carrier-destructs-itself-in-beat", carrier + ["script o3 md err", "script o2 hb:0 dest,o2;hbs", "tick",
                                                                       "do o0 hbs", "tick"])
+        # --- move_or_destruct(): the item destructs ITSELF (allowed), tries to destruct somebody else (restrict_destruct:
+        #     error, the carrier survives), or moves away (it survives, keeps its heart beat, the carrier dies)
+        carrier3 = ["do o0 clone,o2,0,1", "do o0 clone,o3,0,1", "do o0 clone,o4,0,1", "do o0 clone,o5,0,2", "do o0 clone,o6,0,1",
+                    "do o2 take,o3", "do o2 take,o4"]
+        mk("hook-item-destructs-itself", carrier3 + ["script o4 md hbs;dest,o4;hbs", "script o3 md shb,o3,3", "tick", "do o0 dest,o2",
+                                                     "do o0 hbs", "tick"])
+        mk("hook-item-moves-away", carrier3 + ["script o4 md mv,o5;hbs", "script o3 md mv,o2;mv,o9;hbs", "tick", "do o0 dest,o2",
+                                               "do o0 hbs", "tick", "do o0 dest,o5", "do o0 hbs", "tick"])
+        mk("hook-item-moves-away-inside-heart-beat", carrier3 + ["script o4 md mv,o6", "script o6 hb:1 dest,o2;hbs", "tick", "tick",
+                                                                 "do o0 hbs", "tick"])
+        mk("hook-restricted-destruct", carrier3 + ["script o4 md dest,o5;hbs", "script o5 hb:1 dest,o2;hbs", "tick", "tick",
+                                                   "do o0 hbs", "do o0 dest,o2", "do o0 hbs", "do o0 dest,o5", "tick"])
+        mk("move-between-carriers", carrier3 + ["do o3 mv,o5", "do o3 mv,o3", "do o5 mv,o6", "do o2 mv,o6", "do o4 mv,o0", "tick",
+                                                "do o0 dest,o5", "do o0 hbs", "do o0 dest,o2", "do o0 hbs", "tick"])
         mk("take-refusals", ["do o0 clone,o2,0,1", "do o0 clone,o3,0,1", "do o0 clone,o4,0,1", "do o2 take,o3", "do o3 take,o4",
                              "do o4 take,o2", "do o2 take,o2", "do o2 take,o0", "do o2 take,o9", "do o4 take,o3",
                              "do o0 dest,o2", "do o4 take,o3", "tick"])
@@ -331,16 +379,35 @@ class C11(Prop):
         mk("timer-flags-other-bits", pop3 + ["tflags 4", "tick", "tflags 6", "tick", "tflags 0", "tick", "tflags 2", "tick"])
         mk("timer-flags-off-empty-list", ["tflags 0", "tick", "do o0 clone,o2,0,1", "tick", "tflags 2", "tick"])
         mk("timer-fired-then-flags-off", pop3 + ["do o2 flag", "tflags 0", "tick", "tflags 2", "tick"])
+        # --- the real backend() loop: the (emulated) timer fires during a round that is then abandoned by an error - the loop
+        #     goes round again and serves the next tick right away; the harness stops delivering ticks after maxPass rounds
+        mk("timer-fired-in-abandoned-round", pop3 + ["script o3 hb:0 flag;err", "tick", "do o0 hbs", "tick"])
+        mk("timer-fired-in-abandoned-round-flags-off", pop3 + ["script o2 hb:0 flag;err;hbs", "script o3 hb:0 rp", "tick", "tflags 0",
+                                                              "do o3 flag", "tick", "tflags 2", "tick"])
+        chain = ["do o0 clone,o%d,0,1" % i for i in range(2, 12)]
+        mk("pass-limit", chain + ["script o%d hb:0 flag;err" % i for i in range(2, 12)] + ["tick", "do o0 hbs", "tick", "do o0 hbs"])
+        mk("pass-limit-not-reached", chain + ["script o%d hb:0 flag;err" % i for i in range(2, 7)] + ["tick", "do o0 hbs", "tick"])
+        mk("command-giver-after-rounds", pop3 + ["do o4 living", "tick", "script o4 hb:1 err", "tick", "do o2 living", "do o0 shb,o4,1",
+                                                "script o4 hb:2 flag", "tick", "tick"])
         mk("empty", ["tick", "do o0 hbs", "tick"])
         mk("dead-and-unknown", ["do o0 clone,o2,0,1", "do o0 dest,o2", "do o0 dest,o2", "do o0 shb,o2,1", "do o0 q,o9",
                                 "do o2 hbs", "do o9 hbs", "do o0 dest,o0", "do o0 dest,o1", "do o0 clone,o2,0,1", "tick"])
         return B
 
+    def heart_beat_chunk(self):
+        """HEART_BEAT_CHUNK of the tree under test (sizes of the boundary populations are stated relative to it)"""
+        import re
+        try:
+            m = re.search(r"#define\s+HEART_BEAT_CHUNK\s+(\d+)", open(os.path.join(E.REPO, "lib/efuns/options.h")).read())
+            return min(int(m.group(1)), 256) if m else 32
+        except OSError:
+            return 32
+
     def gen_ops(self, rng, ids, allow_err=True, n=None):
         ops = []
         for _ in range(n if n is not None else rng.weighted([(1, 6), (2, 4), (3, 2), (5, 1)])):
             k = rng.weighted([("shb", 12), ("q", 2), ("dest", 4), ("clone", 2), ("err", 2 if allow_err else 0),
-                              ("flag", 1), ("hbs", 2), ("take", 1), ("cerr", 2), ("reload", 3), ("living", 1), ("burn", 1), ("rp", 1)])
+                              ("flag", 1), ("hbs", 2), ("take", 1), ("cerr", 2), ("reload", 3), ("living", 1), ("burn", 1), ("rp", 1), ("mv", 1)])
             t = rng.choice(ids["all"])
             if k == "shb":
                 ops.append("shb,o%d,%d" % (t, rng.weighted(INTERVALS)))
@@ -352,6 +419,8 @@ class C11(Prop):
                     ops.append("err")      # reaches error_handler even when the object has just destructed itself
             elif k == "take":
                 ops.append("take,o%d" % t)
+            elif k == "mv":
+                ops.append("mv,o%d" % t)
             elif k == "reload":
                 ops.append("reload,o%d,%d" % (t, rng.weighted([(1, 6), (2, 3), (0, 2), (3, 1), (-1, 1), (40000, 1)])))
             elif k == "clone":
@@ -388,11 +457,17 @@ class C11(Prop):
                 hops = []
                 for _ in range(rng.range(1, 3)):
                     k = rng.weighted([("wake", 5), ("shb", 3), ("hbs", 1), ("q", 1), ("flag", 1), ("clone", 1), ("err", 1),
-                                      ("cerr", 1)])
+                                      ("cerr", 1), ("selfdest", 1), ("otherdest", 1), ("mv", 2)])
                     if k == "wake":
                         hops.append("shb,o%d,%d" % (c, rng.weighted([(1, 5), (2, 2), (0, 1)])))
                     elif k == "shb":
                         hops.append("shb,o%d,%d" % (rng.choice(ids["all"]), rng.weighted(INTERVALS)))
+                    elif k == "selfdest":
+                        hops.append("dest,o%d" % i)
+                    elif k == "otherdest":
+                        hops.append("dest,o%d" % rng.choice(ids["all"]))
+                    elif k == "mv":
+                        hops.append("mv,o%d" % rng.choice(ids["all"]))
                     elif k == "q":
                         hops.append("q,o%d" % c)
                     elif k == "clone":
